@@ -426,6 +426,23 @@ def handle (op : String) : P String := do
   | "rnd.generate" => do
     let seed ← nat; let lo ← flt; let hi ← flt; let n ← nat
     pure (respond (Rng.generateN lo hi n (Rng.create seed)) (fun r => s!"{r.1.current} {rV1 r.2}"))
+  | "rnd.tensor" => do
+    -- `Tensor::random` is seeded from the clock: only the recorded shape, the nested extents and the
+    -- range of the values can be compared; the model draws from an arbitrary state
+    let sh ← shape; let lo ← flt; let hi ← flt
+    pure (respond (Rng.randomTensor (Rng.create 1) sh lo hi) (fun t =>
+      let skel := match t.data with
+        | .single v => s!"{rShape t.shape} [1 {v.length}]"
+        | .double v => s!"{rShape t.shape} [2 {v.length} {(v.map List.length)}]"
+        | .triple v => s!"{rShape t.shape} [3 {v.length} {(v.map (fun (m : V2 F) => m.map List.length))}]"
+        | .quadruple v => s!"{rShape t.shape} [4 {v.length} {(v.map (fun (k : V3 F) => k.map (fun (m : V2 F) => m.map List.length)))}]"
+      let ok (x : F) : Bool := !(Scalar.lt x lo) && !(Scalar.lt hi x)
+      let inRange := match t.data with
+        | .single v => v.all ok
+        | .double v => v.all (·.all ok)
+        | .triple v => v.all (·.all (·.all ok))
+        | .quadruple v => v.all (·.all (·.all (·.all ok)))
+      s!"{skel} inrange {rBool inRange}"))
   | "rnd.shuffle" => do
     let seed ← nat; let n ← nat; let vals ← many nat n
     pure (respond (Rng.shuffle F (Rng.create seed) vals) (fun r => s!"{r.1.current} {rNats r.2}"))
